@@ -15,6 +15,9 @@ def _graph_texts(c, n):
             penman.decode(s)
         except Exception:
             continue
+        if c.rng.random() < 0.25:
+            # several keys on one comment line, blanks before the next "::", a comment without metadata
+            s = c.rng.choice(['# ::id 7  ::snt foo bar   ::k\n', '# ::a 1 ::b  two  words \t ::c\n# plain comment\n', '#::x y::z  w \n']) + s
         out.append(s)
     return out
 
